@@ -99,7 +99,7 @@ func (r *runner) runMutations(cases []json.RawMessage, n int, start int) {
 			}
 			mut := mutateBytes(rand.New(rand.NewSource(mseed)), doc)
 			r.jr.at(item-1, 0, "mutate-decode")
-			dec, err, pm := decode(et, src, c.Fmt, mut, path)
+			dec, err, pm := decode(et, src, c.Fmt, mut, path, false)
 			r.count("mutations")
 			mc := c
 			mc.Faults = []fault{{F: "ByteMutation"}}
